@@ -37,9 +37,10 @@ VARIABLES
   acked,      \* ids whose commit call returned to a caller
   cont,       \* id -> content digest the committer wrote (recorded when its commit call returned)
   seen,       \* <<read path, id>> -> content digest first observed through that read path
+  everPre,    \* every <<id, alh>> that was ever precommitted
   open        \* store is open
 
-vars == <<synced, extAllow, log, committed, allowed, cflushed, cdurable, hist, acked, cont, seen, open>>
+vars == <<synced, extAllow, log, committed, allowed, cflushed, cdurable, hist, acked, cont, seen, everPre, open>>
 
 InmemPre == Len(log)
 AlhAt(n) == IF n = 0 THEN Genesis ELSE log[n].alh
@@ -48,7 +49,7 @@ Min(a, b) == IF a < b THEN a ELSE b
 
 StoreInit(s, e) ==
   /\ synced = s /\ extAllow = e /\ log = <<>> /\ committed = 0 /\ allowed = 0
-  /\ cflushed = 0 /\ cdurable = 0 /\ hist = <<>> /\ acked = {} /\ cont = <<>> /\ seen = <<>> /\ open = TRUE
+  /\ cflushed = 0 /\ cdurable = 0 /\ hist = <<>> /\ acked = {} /\ cont = <<>> /\ seen = <<>> /\ everPre = {} /\ open = TRUE
 
 \* performPrecommit: tx `id` gets its header; blOk = the embedded BlRoot is the root of the hash tree over
 \* the accumulated hashes of txs 1..bl; ahtSize = size of the hash tree afterwards
@@ -61,17 +62,18 @@ Precommit(id, alh, prev, bl, blOk, ahtSize, maxActive) ==
   /\ ahtSize = id
   /\ (synced => InmemPre < committed + maxActive)
   /\ log' = Append(log, [alh |-> alh, prev |-> prev, bl |-> bl, vdur |-> FALSE, tdur |-> FALSE])
+  /\ everPre' = everPre \cup {<<id, alh>>}
   /\ UNCHANGED <<synced, extAllow, committed, allowed, cflushed, cdurable, hist, acked, cont, seen, open>>
 
 VLogsSynced ==
   /\ open
   /\ log' = [n \in 1..Len(log) |-> [log[n] EXCEPT !.vdur = TRUE]]
-  /\ UNCHANGED <<synced, extAllow, committed, allowed, cflushed, cdurable, hist, acked, cont, seen, open>>
+  /\ UNCHANGED <<synced, extAllow, committed, allowed, cflushed, cdurable, hist, acked, cont, seen, everPre, open>>
 
 TxLogSynced(upto) ==
   /\ open /\ upto = InmemPre
   /\ log' = [n \in 1..Len(log) |-> [log[n] EXCEPT !.tdur = TRUE]]
-  /\ UNCHANGED <<synced, extAllow, committed, allowed, cflushed, cdurable, hist, acked, cont, seen, open>>
+  /\ UNCHANGED <<synced, extAllow, committed, allowed, cflushed, cdurable, hist, acked, cont, seen, everPre, open>>
 
 \* commit entries for from+1..to written at offset `from` of the commit log
 CLogFlushed(from, to) ==
@@ -82,12 +84,12 @@ CLogFlushed(from, to) ==
   /\ (synced => \A n \in (from + 1)..to : log[n].vdur /\ log[n].tdur)
   /\ cflushed' = to
   /\ cdurable' = Min(cdurable, from)        \* entries past `from` are being rewritten
-  /\ UNCHANGED <<synced, extAllow, log, committed, allowed, hist, acked, cont, seen, open>>
+  /\ UNCHANGED <<synced, extAllow, log, committed, allowed, hist, acked, cont, seen, everPre, open>>
 
 CLogSynced(upto) ==
   /\ open /\ upto = cflushed
   /\ cdurable' = cflushed
-  /\ UNCHANGED <<synced, extAllow, log, committed, allowed, cflushed, hist, acked, cont, seen, open>>
+  /\ UNCHANGED <<synced, extAllow, log, committed, allowed, cflushed, hist, acked, cont, seen, everPre, open>>
 
 Committed(upto, alh) ==
   /\ open /\ upto > committed /\ upto <= InmemPre
@@ -96,7 +98,7 @@ Committed(upto, alh) ==
   /\ alh = AlhAt(upto)                      \* the reported state is the hash of the last committed tx
   /\ committed' = upto
   /\ hist' = hist \o [k \in 1..(upto - committed) |-> log[committed + k].alh]
-  /\ UNCHANGED <<synced, extAllow, log, allowed, cflushed, cdurable, acked, cont, seen, open>>
+  /\ UNCHANGED <<synced, extAllow, log, allowed, cflushed, cdurable, acked, cont, seen, everPre, open>>
 
 Discard(since, n) ==
   /\ open /\ since > committed /\ since <= InmemPre     \* committed txs are never discarded
@@ -104,12 +106,12 @@ Discard(since, n) ==
   /\ log' = SubSeq(log, 1, since - 1)
   /\ allowed' = allowed                     \* (the code keeps the allowance; it is clamped when used)
   /\ cflushed' = Min(cflushed, committed) /\ cdurable' = Min(cdurable, committed)
-  /\ UNCHANGED <<synced, extAllow, committed, hist, acked, cont, seen, open>>
+  /\ UNCHANGED <<synced, extAllow, committed, hist, acked, cont, seen, everPre, open>>
 
 Allow(upto) ==
   /\ open /\ extAllow /\ upto <= InmemPre     \* (the code may also lower the allowance after a discard: harmless)
   /\ allowed' = upto
-  /\ UNCHANGED <<synced, extAllow, log, committed, cflushed, cdurable, hist, acked, cont, seen, open>>
+  /\ UNCHANGED <<synced, extAllow, log, committed, cflushed, cdurable, hist, acked, cont, seen, everPre, open>>
 
 \* a commit call returned (id, alh) to its caller, who wrote `content`
 Ack(id, alh, content) ==
@@ -119,7 +121,7 @@ Ack(id, alh, content) ==
   /\ (<<"ReadTx", id>> \in DOMAIN seen => seen[<<"ReadTx", id>>] = content)
   /\ acked' = acked \cup {id}
   /\ cont' = (id :> content) @@ cont
-  /\ UNCHANGED <<synced, extAllow, log, committed, allowed, cflushed, cdurable, hist, seen, open>>
+  /\ UNCHANGED <<synced, extAllow, log, committed, allowed, cflushed, cdurable, hist, seen, everPre, open>>
 
 \* a committed tx re-read through the public API: header hash `alh`; chainOk = the header's PrevAlh is the
 \* Alh of its predecessor as read back and its BlRoot is the reference root over the Alhs read back
@@ -131,11 +133,11 @@ Observed(id, alh, chainOk, content, via) ==
   /\ ((via = "ReadTx" /\ id \in DOMAIN cont) => content = cont[id])   \* what its committer wrote
   /\ (<<via, id>> \in DOMAIN seen => seen[<<via, id>>] = content)       \* and never anything else later
   /\ seen' = (<<via, id>> :> content) @@ seen
-  /\ UNCHANGED <<synced, extAllow, log, committed, allowed, cflushed, cdurable, hist, acked, cont, open>>
+  /\ UNCHANGED <<synced, extAllow, log, committed, allowed, cflushed, cdurable, hist, acked, cont, everPre, open>>
 
 Close ==
   /\ open /\ open' = FALSE
-  /\ UNCHANGED <<synced, extAllow, log, committed, allowed, cflushed, cdurable, hist, acked, cont, seen>>
+  /\ UNCHANGED <<synced, extAllow, log, committed, allowed, cflushed, cdurable, hist, acked, cont, seen, everPre>>
 
 \* clean open: the committed frontier is what it was; precommitted-but-uncommitted txs found in the tx log
 \* are reloaded (possibly ones that had been discarded: the tx log is not truncated on discard)
@@ -147,7 +149,24 @@ Opened(c, reloaded) ==
   /\ log' = [n \in 1..c |-> [alh |-> hist[n], prev |-> IF n = 1 THEN Genesis ELSE hist[n - 1], bl |-> 0, vdur |-> TRUE, tdur |-> TRUE]]
             \o [k \in 1..Len(reloaded) |-> [alh |-> reloaded[k].alh, prev |-> reloaded[k].prev, bl |-> reloaded[k].bl, vdur |-> TRUE, tdur |-> TRUE]]
   /\ allowed' = c /\ cflushed' = c /\ cdurable' = c
+  /\ everPre' = everPre \cup {<<c + k, reloaded[k].alh>> : k \in 1..Len(reloaded)}
   /\ UNCHANGED <<synced, extAllow, committed, hist, acked, cont, seen>>
+
+-----------------------------------------------------------------------------
+(* Crash durability (C03).  `r` describes what the real recovery code made of a crash image taken at  *)
+(* this instant of the execution: r.c recovered committed frontier, r.alhs the recovered accumulated    *)
+(* hashes 1..c, and what the driver measured on the recovered store.                                    *)
+RecoveredVerdict(r) ==
+  [opens     |-> r.openOk,
+   \* everything that was made visible as committed (hence every acknowledged commit) is still there, identical
+   survives  |-> (~synced) \/ (r.c >= committed /\ \A id \in 1..committed : r.alhs[id] = hist[id] /\ r.contentOk),
+   \* the rest is a gap-free chained extension by transactions that were really precommitted
+   extension |-> r.chainOk /\ \A id \in 1..r.c : id > committed => <<id, r.alhs[id]>> \in everPre,
+   values    |-> r.extraValuesOk,
+   proofs    |-> r.proofOk,
+   index     |-> r.indexOk,
+   accepts   |-> r.commitOk]
+VerdictOk(v) == v.opens /\ v.survives /\ v.extension /\ v.values /\ v.proofs /\ v.index /\ v.accepts
 
 -----------------------------------------------------------------------------
 (* Invariants (C02): dense immutable history, chained hashes, frontier order *)
